@@ -30,10 +30,12 @@ type c09Scenario struct {
 	Var    *int    `json:"var,omitempty"`
 }
 
+// fields in alphabetical order: MergeRowGroups orders the merged schema alphabetically, and only
+// row groups whose schema equals the writer's take the chunk-level fast paths of WriteRowGroup
 type c09Row struct {
+	Idx int32  `parquet:"idx"`
 	K   *int64 `parquet:"k"`
 	Src int32  `parquet:"src"`
-	Idx int32  `parquet:"idx"`
 }
 
 func c09Sorting(sc *c09Scenario) parquet.SortingColumn {
@@ -68,10 +70,13 @@ func c09Main(args []string) error {
 		}
 		v := variant
 		take := func(n int) int { x := v % n; v /= n; return x }
-		block := []int{1, 3, 1, 400}[take(4)]
+		block := []int{1, 3, 1, 400, 3, 1, 1100, 2}[take(8)] // 1100: a single abstract row is a >= 1024-row stretch
 		dedupe := take(2) == 1
 		source := []string{"file", "buffer", "file-multipage"}[take(3)]
 		compressed := take(2) == 1
+		// spread: the physical rows of an abstract key get distinct, interleaving key values (so pages hold
+		// key RANGES, as in time-ordered files); otherwise all rows of a block share one key value
+		spread := take(2) == 1
 		sorting := c09Sorting(sc)
 
 		// build the inputs
@@ -79,17 +84,32 @@ func c09Main(args []string) error {
 		keys := make([][]int, len(sc.Inputs)) // physical key tokens
 		for i, in := range sc.Inputs {
 			idx := 0
+			count := map[int]int{} // abstract rows of this key seen so far in this input
+			total := map[int]int{}
+			for _, k := range in {
+				total[k]++
+			}
 			for _, k := range in {
 				for j := 0; j < block; j++ {
 					row := c09Row{Src: int32(i), Idx: int32(idx)}
+					tok := k
 					if k != 0 {
 						x := int64(k)*1000 - 1500
+						if spread {
+							pos := count[k]*block + j // position among this input's rows of abstract key k
+							if sc.Cfg.Desc {
+								pos = total[k]*block - 1 - pos
+							}
+							tok = k*100000 + pos*len(sc.Inputs) + i
+							x = int64(tok)
+						}
 						row.K = &x
 					}
 					inputs[i] = append(inputs[i], row)
-					keys[i] = append(keys[i], k)
+					keys[i] = append(keys[i], tok)
 					idx++
 				}
+				count[k]++
 			}
 		}
 		rgs := []parquet.RowGroup{}
@@ -107,6 +127,9 @@ func c09Main(args []string) error {
 				opts := []parquet.WriterOption{parquet.SortingWriterConfig(parquet.SortingColumns(sorting))}
 				if compressed {
 					opts = append(opts, parquet.Compression(&parquet.Snappy))
+				}
+				if spread {
+					opts = append(opts, parquet.PageBufferSize(512)) // many small pages, each a key range
 				}
 				w := parquet.NewGenericWriter[c09Row](buf, opts...)
 				per := len(inputs[i])
@@ -137,13 +160,15 @@ func c09Main(args []string) error {
 			return fmt.Errorf("scenario %d: building inputs: %w", sc.ID, buildErr)
 		}
 		tr.begin(ev{"sc": sc.ID, "var": variant, "cfg": ev{"desc": sc.Cfg.Desc, "nullsFirst": sc.Cfg.NullsFirst, "dedupe": dedupe},
-			"inputs": keys, "block": block, "source": source})
+			"inputs": keys, "block": block, "source": source, "spread": spread})
 
 		project := func(rows []c09Row) [][]int {
 			out := make([][]int, len(rows))
 			for i, row := range rows {
 				k := 0
-				if row.K != nil {
+				if row.K != nil && spread {
+					k = int(*row.K)
+				} else if row.K != nil {
 					x := *row.K + 1500
 					if x%1000 != 0 || x < 1000 || x > 9000 {
 						k = alien
